@@ -1,20 +1,19 @@
 (* Line driver for the extracted model: reads one ASCII case line, converts it
    to a list of Coq [Z] byte codes, calls [Model.run_line], prints the result. *)
-open Model
 
 let rec pos_of_int n =
-  if n = 1 then XH
-  else if n land 1 = 0 then XO (pos_of_int (n lsr 1))
-  else XI (pos_of_int (n lsr 1))
+  if n = 1 then Model.XH
+  else if n land 1 = 0 then Model.XO (pos_of_int (n lsr 1))
+  else Model.XI (pos_of_int (n lsr 1))
 
-let z_of_int n = if n = 0 then Z0 else if n > 0 then Zpos (pos_of_int n) else Zneg (pos_of_int (-n))
+let z_of_int n = if n = 0 then Model.Z0 else if n > 0 then Model.Zpos (pos_of_int n) else Model.Zneg (pos_of_int (-n))
 
 let rec int_of_pos = function
-  | XH -> 1
-  | XO p -> 2 * int_of_pos p
-  | XI p -> 2 * int_of_pos p + 1
+  | Model.XH -> 1
+  | Model.XO p -> 2 * int_of_pos p
+  | Model.XI p -> 2 * int_of_pos p + 1
 
-let int_of_z = function Z0 -> 0 | Zpos p -> int_of_pos p | Zneg p -> - (int_of_pos p)
+let int_of_z = function Model.Z0 -> 0 | Model.Zpos p -> int_of_pos p | Model.Zneg p -> - (int_of_pos p)
 
 let ztab = Array.init 256 z_of_int
 
@@ -28,7 +27,7 @@ let () =
        for i = n - 1 downto 0 do
          l := ztab.(Char.code line.[i]) :: !l
        done;
-       let out = run_line !l in
+       let out = Model.run_line !l in
        Buffer.clear buf;
        List.iter (fun z -> Buffer.add_char buf (Char.chr (int_of_z z))) out;
        Buffer.add_char buf '\n';
